@@ -33,9 +33,19 @@ Definition cached_obs (r : result run_state) : sx :=
                  SL (map (fun x => SL [SS (fst (fst x)); sx_val (snd (fst x)); sx_val (snd x)]) (r_out st))]
   | Err e => SErr e
   end.
+Definition results_of (o : sx) : sx :=
+  match o with
+  | SL [SS t; res; SI _] => SL [SS t; res]
+  | _ => o
+  end.
 Definition run_one (noev : bool) (c0 : list (mkey * mval)) (c : Run_C01.case) : sx * list (mkey * mval) :=
-  let '(r, c1, x) := map_run_c sym_body map_simple (c_funcs c) (c_inputs c) (c_internal c) c0 in
-  (SL [Run_C01.run c; cached_obs r; if noev && is_ok r then SN x else SI (-1)], c1).
+  if noev then
+    let '(r, c1, x) := map_run_c sym_body map_simple (c_funcs c) (c_inputs c) (c_internal c) c0 in
+    (SL [Run_C01.run c; cached_obs r; if is_ok r then SN x else SI (-1)], c1)
+  else
+    (* a cache that evicts / a shared cache under a thread pool: only the results are observed, and they are those
+       of the uncached run whatever the policy does (C09_map_run_cache_transparent) *)
+    let u := Run_C01.run c in (SL [u; results_of u; SI (-1)], c0).
 Definition run (m : mcase) : sx :=
   let '(o1, c1) := run_one (m_noevict m) [] (m_req m) in
   match m_second m with
